@@ -404,7 +404,7 @@ func genCase(rt *rapid.T) Case {
 }
 
 func TestProp(t *testing.T) {
-	defer rec.Write()
+	defer rec.MustWrite()
 	rec.Rule("exhaustive: every single-byte perturbation (24 positions x 256 values) of every canonical header (format specifications + imagetype/test.dat); " +
 		"thorough adds every two-byte perturbation inside the first 12 bytes of the TIFF-family and ftyp headers; " +
 		"random: headers assembled from signature fragments, arbitrary strings of length 0..64, perturbed/truncated/extended canonical headers, overlays of two headers. " +
